@@ -11,6 +11,7 @@ Ends are the rounded ends `Ev.endOf e = round(ts + dur, 4)` the code compares.
 -/
 import AiuVerif.Lemmas.Overlap
 import AiuVerif.Lemmas.OverlapSort
+import AiuVerif.Lemmas.OverlapLanes
 
 namespace AiuVerif.C04
 open AiuVerif.Overlap
@@ -82,6 +83,35 @@ theorem only_tid_changes (evs out : List Ev) (h : pipeline .tid evs = .ok out) :
     have := detectAll_tid_noTid _ _ _ _ _ _ hd
     exact ⟨this, this ▸ (sortStage_perm evs).map _⟩
 
+/-- **Clause 3 (-O tid never merges lanes).** Put the sorted input and the output of the
+sub-pipeline side by side (they correspond elementwise by `only_tid_changes`): two slices that
+share an output lane `(pid, tid)` were on the same input lane.  Rests on
+`owns_unique` (= `buildTidSpace_disjoint`): the ranges `_collect_and_build_tid_space` hands out
+are pairwise disjoint and disjoint from every tid seen in the pid. -/
+theorem lanes_not_merged (evs out : List Ev) (h : pipeline .tid evs = .ok out) :
+    ∀ p ∈ (sortStage evs).zip out, ∀ q ∈ (sortStage evs).zip out,
+      p.1.isX = true → q.1.isX = true → p.2.pid = q.2.pid → p.2.tid = q.2.tid →
+        p.1.pid = q.1.pid ∧ p.1.tid = q.1.tid := by
+  unfold pipeline at h
+  simp only [] at h
+  split at h
+  · cases h
+  rename_i st' out' hd
+  injection h with h; subst h
+  intro p hp q hq hxp hxq hpid htid
+  obtain ⟨hp1, _, hp3⟩ := detectAll_tid_zip _ _ _ _ _ _ hd p hp
+  obtain ⟨hq1, _, hq3⟩ := detectAll_tid_zip _ _ _ _ _ _ hd q hq
+  have hpq : p.1.pid = q.1.pid := by rw [← hp1, ← hq1, hpid]
+  refine ⟨hpq, ?_⟩
+  have hmp := seenOf_foldl_mem (sortStage evs) [] p.1 (List.of_mem_zip hp).1 hxp
+  have hmq := seenOf_foldl_mem (sortStage evs) [] q.1 (List.of_mem_zip hq).1 hxq
+  rw [← hpq] at hmq hq3
+  have hnx := nextOf_buildSpaces maxTidStreams (sortStage evs) p.1.pid
+  have h1 := owns_reach hnx (owns_self hmp) hp3
+  have h2 := owns_reach hnx (owns_self hmq) hq3
+  rw [htid] at h1
+  exact owns_unique h1 h2
+
 /-! ### non-vacuity: concrete runs that meet the hypotheses and exercise the branches -/
 
 deriving instance DecidableEq for Except
@@ -95,6 +125,11 @@ example : pipeline .tid [x 0 7 0 3, x 1 7 1 3, x 2 7 2 3, x 3 7 1 1]
 
 example : pipeline .drop [x 0 7 0 3, x 1 7 1 3, x 2 7 2 3, x 3 7 1 1]
     = .ok [x 0 7 0 3, x 3 7 1 1] := by decide +kernel
+
+/-- lanes 7 and 8 both exist in the input: the slice moved off lane 7 goes to 9 (8 is excluded),
+the one moved off lane 8 to 14 (9..13 belong to lane 7) -/
+example : pipeline .tid [x 0 7 0 3, x 1 7 1 3, x 2 8 0 3, x 3 8 1 3]
+    = .ok [x 0 7 0 3, x 1 9 1 3, x 2 8 0 3, x 3 14 1 3] := by decide +kernel
 
 /-- the rounding is not the identity: 1/32 + 1/32 ends at 0.0625, 1/32 alone at 0.0312 -/
 example : (x 0 7 0 (1/32)).endOf = 39/1250 := by decide +kernel
